@@ -125,3 +125,7 @@ func TestC19(t *testing.T) {
 func TestC19Conc(t *testing.T) {
 	RunProp(t, "C19", "prepared-concurrent", func(rt *rapid.T) PrepCase { return genPrepCase(rt, true) }, checkC19)
 }
+
+func TestC12(t *testing.T) { RunProp(t, "C12", "serverhandshake", genServerHSCase, checkC12) }
+
+func TestC13(t *testing.T) { RunProp(t, "C13", "origin", genOriginCase, checkC13) }
